@@ -30,7 +30,13 @@ EXPLANATION = ("__aenter__, __aexit__, Persistence.start/stop/save and the two s
 
 def build(world):
     gu.prepare(world)
-    return gu.mk(persistence_c.c16_units(world))
+    units = gu.mk(persistence_c.c16_units(world))
+    # the context manager connects and disconnects through the abstract Transport contract; the concrete transports' own
+    # connect / disconnect must not leave a task behind either (stream transports: C17's units, MQTT: C18's)
+    from contracts import transport_c, mqtt_c
+    units += [u for u in gu.mk(transport_c.units(world)) if ".disconnect[" in u.name or ".connect[" in u.name]
+    units += [u for u in gu.mk(mqtt_c.units(world)) if u.name.endswith(".disconnect") or u.name.endswith(".connect")]
+    return units
 
 
 def native_search():
@@ -105,6 +111,56 @@ def native_search():
             r = asyncio.run(run())
             if r:
                 return {"scenario": scenario, "observed": r}, n
+        # every built-in transport kind: an MQTT connect whose k-th subscription is refused must leave no receive task behind
+        import aiomysensors.transport.mqtt as mq
+        from aiomqtt import MqttError
+
+        class Refusing:
+            def __init__(self, k):
+                self.k, self.n = k, 0
+
+            async def __aenter__(self):
+                return self
+
+            async def __aexit__(self, *a):
+                return None
+
+            async def publish(self, *a, **kw):
+                return None
+
+            async def subscribe(self, topic, **kw):
+                self.n += 1
+                if self.n == self.k:
+                    raise MqttError("subscription refused")
+
+            @property
+            def messages(self):
+                async def gen():
+                    await asyncio.sleep(3600)
+                    yield None
+                return gen()
+        orig = mq.AsyncioClient
+        try:
+            for k in (1, 3, 5):
+                async def mqtt_case(k=k):
+                    mq.AsyncioClient = lambda *a, **kw: Refusing(k)
+                    gw = Gateway(mq.MQTTClient("h"), Config())
+                    try:
+                        async with gw:
+                            return "the context was entered although a subscription was refused"
+                    except TransportError:
+                        pass
+                    except BaseException as e:  # noqa: BLE001
+                        return f"{type(e).__name__} escaped instead of a transport error"
+                    await asyncio.sleep(0)
+                    left = [t for t in asyncio.all_tasks() if t is not asyncio.current_task()]
+                    return f"{len(left)} background task(s) left after a failed connect: {[t.get_coro().__qualname__ for t in left]}" if left else None
+                n += 1
+                r = asyncio.run(mqtt_case())
+                if r:
+                    return {"scenario": f"MQTT transport, subscription #{k} of connect() refused by the broker", "observed": r}, n
+        finally:
+            mq.AsyncioClient = orig
     finally:
         import shutil
         shutil.rmtree(d, ignore_errors=True)
